@@ -17,6 +17,7 @@ exception or non-zero encapsulation status).  Oracle:
 from __future__ import annotations
 
 import contextlib
+import os
 import signal
 import time
 import struct
@@ -60,7 +61,7 @@ STEP_A, STEP_B = 2000, 40
 WATCHDOG_S = 20
 
 
-class Hang(Exception):
+class Hang(BaseException):        # (not an Exception: the code under test must not be able to swallow the watchdog)
     pass
 
 
@@ -456,7 +457,7 @@ def pred(case, stats):
     while True:
         tries += 1
         old = signal.signal(signal.SIGALRM, _alarm)
-        signal.alarm(WATCHDOG_S)
+        signal.setitimer(signal.ITIMER_REAL, WATCHDOG_S, 2.0)      # fires again every 2 s until cancelled
         try:
             return _pred(case, stats)
         except Hang:
@@ -466,7 +467,7 @@ def pred(case, stats):
                            expected='processing time bounded by the input length')
                 return
         finally:
-            signal.alarm(0)
+            signal.setitimer(signal.ITIMER_REAL, 0)
             signal.signal(signal.SIGALRM, old)
 
 
@@ -655,8 +656,78 @@ def _pred(case, stats):
         dev.close()
 
 
-CLAUSES = {'stream': pred}
-STRATEGIES = {'stream': lambda k: cases(k)}
+# ------------------------------------------------------------------------------------------------
+# clause: connected -- a connected session (Forward Open with any well-formed connection path, then connected requests, some of them
+# mutated) is answered or refused in bounded time and alters no tag except through a well-formed write
+
+
+def pred_connected(case, stats):
+    """case = {'path': 'portless'|1|2|3 hops, 'large': bool, 'requests': [{'write': bool, 'cut': n}]}"""
+    dev = sim.Device(SPECS)
+    old = signal.signal(signal.SIGALRM, _alarm)
+    try:
+        addr = ('127.0.0.8', 8108)
+        kind, rpy = dev.process(addr, rc.register())
+        handle = rc.dec_encap(rpy)['session']
+        hops = case['path']
+        cpath = ([] if hops == 'portless' else [{'port': 1, 'link': 0}, {'port': 2, 'link': '10.1.2.3'}, {'port': 3, 'link': 7}][:hops]) + [{'class': 2}, {'instance': 1}]
+        large = bool(case['large'])
+        fo = {'priority': 0x0A, 'timeout_ticks': 0x0E, 'O_T_connection_ID': 0x20000002, 'T_O_connection_ID': 0x20000001,
+              'connection_serial': 0x4321, 'O_vendor': 0x1337, 'O_serial': 43, 'connection_timeout_multiplier': 3,
+              'O_T_RPI': 0x00201234, 'O_T_NCP': (0x42000000 | 4000) if large else (0x4200 | 500), 'T_O_RPI': 0x00204001,
+              'T_O_NCP': (0x42000000 | 4000) if large else (0x4200 | 500), 'transport_class_triggers': 0xA3, 'connection_path': cpath}
+        stats.case(case, nontrivial=hops not in (1,), classes=['connected:path:%s' % hops, 'connected:requests:%d' % len(case['requests'])])
+        signal.setitimer(signal.ITIMER_REAL, WATCHDOG_S, 2.0)      # fires again every 2 s until cancelled
+        try:
+            kind, rpy = dev.process(addr, rc.rr_frame(handle, rc.enc_forward_open(fo, large=large), b'c08-fo\0\0'))
+            if kind != 'reply' or rc.dec_encap(rpy)['status'] != 0:
+                return          # refused: fine (reply or close)
+            _, m = rc.dec_rr_reply(rpy)
+            mr = rc.dec_mr_reply(m)
+            if mr['status'] != 0:
+                return
+            conn_id = rc.dec_forward_open_reply(mr)['O_T_connection_ID']
+            before = dev.snapshot()
+            want = {n: list(v) for n, v in before.items()}
+            for k, rq in enumerate(case['requests']):
+                if rq['write']:
+                    msg = rc.req_write_tag([{'symbolic': 'I16'}, {'element': 2}], 'INT', [1000 + k, -k])
+                else:
+                    msg = rc.req_read_tag([{'symbolic': 'I16'}, {'element': 0}], 3)
+                cut = rq.get('cut', 0)
+                if rq['write'] and cut > 1:
+                    cut = 1         # (cutting whole elements off a write leaves a well-formed request with fewer values than its count: unspecified)
+                whole = cut == 0
+                if cut:
+                    msg = msg[:-min(cut, len(msg) - 1)]
+                frame = rc.encap(rc.CMD['send_unit_data'], handle, rc.send_unit_data(conn_id, k + 1, msg), b'c08-cn%02d' % (k % 100))
+                kind, rpy = dev.process(addr, frame)
+                if rq['write'] and whole and kind == 'reply' and rc.dec_encap(rpy)['status'] == 0:
+                    want['I16'][2:4] = [1000 + k, -k]
+                after = dev.snapshot()
+                if after != want and not (rq['write'] and whole):
+                    stats.fail('connected', 'connected:tags-altered-by-a-read-or-a-truncated-request', case, observed={'request': k, 'tags': [n for n in after if after[n] != want[n]]},
+                               expected='tags change only through complete, well-formed write requests')
+                    return
+                want = {n: list(v) for n, v in after.items()}
+                if kind != 'reply':
+                    break
+        except Hang:
+            stats.fail('connected', 'hang:connected-request-not-completed-within-%ds' % WATCHDOG_S, case, observed='watchdog fired',
+                       expected='processing time bounded by the input length')
+        finally:
+            signal.setitimer(signal.ITIMER_REAL, 0)
+    finally:
+        signal.signal(signal.SIGALRM, old)
+        dev.close()
+
+
+connected_cases = st.builds(lambda p, l, r: {'path': p, 'large': l, 'requests': r}, st.sampled_from(['portless', 1, 1, 2, 2, 3]), st.booleans(),
+                            st.lists(st.builds(lambda w, c: {'write': w, 'cut': c}, st.booleans(), st.sampled_from([0, 0, 0, 1, 2, 5])), min_size=1, max_size=4))
+
+
+CLAUSES = {'stream': pred, 'connected': pred_connected}
+STRATEGIES = {'stream': lambda k: cases(k), 'connected': lambda k: connected_cases}
 
 
 # ------------------------------------------------------------------------------------------------
@@ -690,9 +761,17 @@ def tcp_shard(job):
                 sock.shutdown(1)
             except OSError:
                 pass
-            buf, eof = sim.recv_until_eof(sock, 10.0)
+            t_sent = time.time()
+            buf, eof = sim.recv_until_eof(sock, 15.0)
             if not eof:
-                raise common.HarnessError('hostile connection neither answered nor closed within 10 s')
+                # neither closed nor (completely) answered after 15 s -- three orders of magnitude beyond the normal few milliseconds.
+                # Alone that is inconclusive; if the connection is closed after all within another 45 s the delay was the simulator's
+                more, eof2 = sim.recv_until_eof(sock, 45.0)
+                if eof2:
+                    s.fail('tcp', 'tcp:reply-or-close-delayed-beyond-15s', case, observed={'bytes_sent': len(stream), 'closed_after_s': round(time.time() - t_sent, 1)},
+                           expected='processing time bounded by the input length: reply or close within milliseconds')
+                    return
+                raise common.HarnessError('hostile connection neither answered nor closed within 60 s')
         finally:
             sock.close()
         s.case(case, nontrivial=True, classes=['tcp'])
@@ -835,9 +914,16 @@ def extras(srv, s):
                 f2 = rc.rr_frame(handle, payload, b'C08sweep')
                 sock.sendall(f2[:cut])
                 sock.shutdown(1)
-                buf, eof = sim.recv_until_eof(sock, 10.0)
+                t_sent = time.time()
+                buf, eof = sim.recv_until_eof(sock, 15.0)
                 if not eof:
-                    raise common.HarnessError('connection with an unfinished frame not closed within 10 s')
+                    more, eof2 = sim.recv_until_eof(sock, 45.0)
+                    if eof2:
+                        s.case(case, nontrivial=True, classes=['tcp:truncation-sweep:' + name])
+                        s.fail('tcp', 'tcp:reply-or-close-delayed-beyond-15s', case, observed={'closed_after_s': round(time.time() - t_sent, 1)},
+                               expected='processing time bounded by the input length: the connection is closed within milliseconds')
+                        return
+                    raise common.HarnessError('connection with an unfinished frame not closed within 60 s')
             finally:
                 sock.close()
             s.case(case, nontrivial=cut > 24, classes=['tcp:truncation-sweep:' + name])
@@ -926,6 +1012,8 @@ def shard(job):
     _, seed, i, n, k = job
     s = Stats()
     common.hyp_run(s, cases(k), pred, n, common.shard_seed(seed, i), 'stream', PID, skey=k)
+    if not os.environ.get('VP_C08_NO_WATCHDOG'):
+        common.hyp_run(s, connected_cases, pred_connected, max(6, n // 40), common.shard_seed(seed, 300 + i), 'connected', PID, skey=k)
     return s
 
 
